@@ -53,6 +53,8 @@ Fixpoint ieval (s : store) (o : iopd) : Z :=
   | OUn UNeg x => swrap (- ieval s x)
   | OUn UPos x => ieval s x
   | OGlob g => nth g (sg s) 0
+  | OByte (YSlot j) => nth j (sb s) 0                (* the byte, zero-extended *)
+  | OByte (YLow i) => nth i (si s) 0 mod 256          (* the low byte of an int: truncation *)
   end.
 Fixpoint bevals (s : store) (e : bexpr) : bool :=
   match e with
@@ -360,46 +362,48 @@ Variable w : Z.
 Variable ng : nat.                 (* the number of int globals *)
 Variable nbg : nat.                (* the number of bool globals *)
 Variable cfb : nat -> nat -> bool.
-Fixpoint oscoped_b (ni : nat) (o : iopd) : bool :=
+Fixpoint oscoped_b (ni nb : nat) (o : iopd) : bool :=
   match o with
   | OLit z => (- (Machine.W w / 2) <=? z) && (z <? Machine.W w / 2)
   | OVar i => (i <? ni)%nat
-  | OArith op x y => match op with SAdd | SSub | SMul => true | _ => false end && oscoped_b ni x && oscoped_b ni y
-  | OUn _ x => oscoped_b ni x
+  | OArith op x y => match op with SAdd | SSub | SMul => true | _ => false end && oscoped_b ni nb x && oscoped_b ni nb y
+  | OUn _ x => oscoped_b ni nb x
   | OGlob g => (g <? ng)%nat
+  | OByte (YSlot j) => (j <? nb)%nat
+  | OByte (YLow i) => (i <? ni)%nat
   end.
 Fixpoint bscoped_b (ni nb : nat) (e : bexpr) : bool :=
   match e with
   | BLit _ => true
   | BVar (BLocal j) => (j <? nb)%nat
   | BVar (BGlobal h) => (h <? nbg)%nat
-  | BCmp _ a b => oscoped_b ni a && oscoped_b ni b
+  | BCmp _ a b => oscoped_b ni nb a && oscoped_b ni nb b
   | BNot e1 => bscoped_b ni nb e1
   | BAnd e1 e2 | BOr e1 e2 => bscoped_b ni nb e1 && bscoped_b ni nb e2
   end.
 Definition divop_b (op : src_arith) : bool := match op with SDiv | SMod => true | _ => false end.
 Fixpoint sscoped_b (ni nb : nat) (inloop : bool) (s : stmt) : bool :=
   match s with
-  | SDeclI o => oscoped_b ni o
-  | SAssignI i o => (i <? ni)%nat && oscoped_b ni o
+  | SDeclI o => oscoped_b ni nb o
+  | SAssignI i o => (i <? ni)%nat && oscoped_b ni nb o
   | SDeclB e => bscoped_b ni nb e
   | SAssignB j e => (j <? nb)%nat && bscoped_b ni nb e
-  | SWrite (WrByte o) => oscoped_b ni o
+  | SWrite (WrByte o) => oscoped_b ni nb o
   | SWrite _ | SWriteln => true
-  | SWriteI _ o => oscoped_b ni o
+  | SWriteI _ o => oscoped_b ni nb o
   | SWriteB _ e => bscoped_b ni nb e
   | SIf c s1 s2 => bscoped_b ni nb c && ssscoped_b ni nb inloop s1 && ssscoped_b ni nb inloop s2
   | SWhile c b k => bscoped_b ni nb c && ssscoped_b ni nb true b && ssscoped_b ni nb inloop k
   | SBlock ss => ssscoped_b ni nb inloop ss
   | SBreak | SContinue => inloop
-  | SDeclDiv op a b => divop_b op && oscoped_b ni a && oscoped_b ni b
-  | SAssignDiv i op a b => (i <? ni)%nat && divop_b op && oscoped_b ni a && oscoped_b ni b
+  | SDeclDiv op a b => divop_b op && oscoped_b ni nb a && oscoped_b ni nb b
+  | SAssignDiv i op a b => (i <? ni)%nat && divop_b op && oscoped_b ni nb a && oscoped_b ni nb b
   | SCall dst f args =>
-      match dst with DAssign i => (i <? ni)%nat | DAssignG g => (g <? ng)%nat | _ => true end && cfb f (length args) && forallb (oscoped_b ni) args
-  | SReturn (Some o) => oscoped_b ni o
+      match dst with DAssign i => (i <? ni)%nat | DAssignG g => (g <? ng)%nat | _ => true end && cfb f (length args) && forallb (oscoped_b ni nb) args
+  | SReturn (Some o) => oscoped_b ni nb o
   | SReturn None => true
-  | SAssignG g o => (g <? ng)%nat && oscoped_b ni o
-  | SAssignGDiv g op a b => (g <? ng)%nat && divop_b op && oscoped_b ni a && oscoped_b ni b
+  | SAssignG g o => (g <? ng)%nat && oscoped_b ni nb o
+  | SAssignGDiv g op a b => (g <? ng)%nat && divop_b op && oscoped_b ni nb a && oscoped_b ni nb b
   | SAssignBG h e => (h <? nbg)%nat && bscoped_b ni nb e
   end
 with ssscoped_b (ni nb : nat) (inloop : bool) (ss : stmts) : bool :=
